@@ -682,6 +682,15 @@ class ExprMixin:
             return self.str_contains(c.z, x.z, st)
         if isinstance(t, T.Tuple):
             return zor([self.eq(x, e, st) for e in self.tuple_items(c)])
+        if isinstance(t, T.Ref) and t.cls != '$any' and not self.spec:
+            for mname in ('__contains__',):
+                m = self.eng.find_method(t.cls, mname)
+                if m is not None:
+                    self.nonnull(c, st, 'in')
+                    return self.truthy(self.call_contract(m, [c, x], {}, st, None), st)
+        dv = self.dictview(c)
+        if dv is not None:
+            return self.contains(dv, x, st)
         if self.is_listlike(c):
             s = self.as_seq(c, st)
             k = z3.Int(fresh_name('k'))
@@ -698,6 +707,13 @@ class ExprMixin:
         obj = self.ev(n.value, st)
         return self.getattr(obj, n.attr, st, n)
 
+    def declares_field(self, cls, attr):
+        for c in self.eng.class_chain(cls):
+            d = self.eng.prop.classes.get(c)
+            if d is not None and attr in d.fields:
+                return True
+        return False
+
     def getattr(self, obj, attr, st, n=None):
         t = obj.t
         if isinstance(t, T.Ref) or (t.reflike and attr in self.eng.prop.field_variants):
@@ -709,6 +725,10 @@ class ExprMixin:
                 pc = self.eng.find_prop(t.cls, attr)
                 if pc is not None:
                     return self.call_contract(pc, [obj], {}, st, n)
+            if isinstance(t, T.Ref) and t.cls != '$any' and not self.declares_field(t.cls, attr) and (self.eng.find_method(t.cls, attr) is not None or
+                                                                   (self.dictview(obj) is not None and attr in ('update', 'get', 'keys', 'has_key'))):
+                # attribute read that names a method: a bound method object (only its identity is modelled)
+                return self.bound_method(obj, attr)
             fid = self.eng.fid(attr, t.cls if isinstance(t, T.Ref) else None)
             ft = self.eng.field_type(fid)
             if attr in getattr(self.eng.prop, 'optional_attrs', ()) and not self.spec:
@@ -747,6 +767,15 @@ class ExprMixin:
         idx = self.ev(n.slice, st)
         return self.getitem(obj, idx, st, n)
 
+    def dictview(self, obj):
+        """An instance of a declared dict subclass seen as the dict it is (raw dict content, not the overridden protocol)."""
+        t = obj.t
+        if isinstance(t, T.Ref) and t.cls != '$any':
+            dt = self.eng.class_dictof(t.cls)
+            if dt is not None:
+                return SV(dt, obj.z)
+        return None
+
     def getitem(self, obj, idx, st, n=None):
         t = obj.t
         if isinstance(t, T.Dict):
@@ -775,6 +804,9 @@ class ExprMixin:
             if m is not None:
                 self.nonnull(obj, st, 'subscript')
                 return self.call_contract(m, [obj, idx], {}, st, n)
+        dv = self.dictview(obj)
+        if dv is not None:
+            return self.getitem(dv, idx, st, n)
         if self.is_listlike(obj):
             if not isinstance(t, T.Seq):
                 self.nonnull(obj, st, 'subscript')
@@ -804,6 +836,27 @@ class ExprMixin:
         t = v.t
         if isinstance(t, T.Ref) and t.cls != '$any' and t.cls in self.eng.prop.classes:
             st.assume(z3.Implies(v.z != 0, self.eng.instance_of(v.z, t.cls)))
+        elif isinstance(t, (T.List, T.Dict)):
+            # a value of a builtin container type is an instance of no declared class (class id 0)
+            st.assume(z3.Implies(v.z != 0, self.eng.cls_of(v.z) == 0))
+            if isinstance(t, T.List) and isinstance(t.elem, T.Ref) and t.elem.cls != '$any' and t.elem.cls in self.eng.prop.classes \
+                    and not getattr(self.eng.prop.classes[t.elem.cls], 'universal', False) and not self.involves_bound([v.z]):
+                # heap typing: the elements of a list[C] are instances of C (or None where the element type is nullable)
+                arr = st.h(self.eng.k_elem(t.elem))
+                ln = st.h(self.eng.k_len())
+                key = ('$elemtyping', arr.get_id(), ln.get_id(), v.z.get_id(), t.elem.cls)
+                if key not in st.axd:
+                    k = z3.Int(fresh_name('k'))
+                    e = z3.Select(z3.Select(arr, v.z), k)
+                    if t.elem.nullable:
+                        body = z3.Implies(z3.And(v.z != 0, 0 <= k, k < z3.Select(ln, v.z), e != 0), self.eng.instance_of(e, t.elem.cls))
+                    else:
+                        body = z3.Implies(z3.And(v.z != 0, 0 <= k, k < z3.Select(ln, v.z)), z3.And(e > 0, self.eng.instance_of(e, t.elem.cls)))
+                    try:
+                        ax = z3.ForAll([k], body, patterns=[e])
+                    except z3.Z3Exception:
+                        ax = z3.ForAll([k], body)
+                    st.add_axiom(key, ax)
 
     def slice_bounds(self, sl, ln, st):
         if sl.step is not None:
